@@ -824,7 +824,8 @@ pub fn gen_voice(t: &mut Tape, o: GenOpts) -> VoiceSpec {
         num_states,
         gv_off_context,
         fullcontext_format: "HTS_TTS_JPN".into(),
-        fullcontext_version: "1.0".into(),
+        // (independent of HTS_VOICE_VERSION, which the serialiser writes as 1.0)
+        fullcontext_version: (*t.pick(&["1.0", "1.0", "1.1", "2.0", "0.9"])).into(),
         duration,
         streams,
         style: if t.chance(0.5) { t.below(32) as u32 } else { 0 },
